@@ -694,7 +694,8 @@ fn parse_after_attr(input: Span<'_>) -> IResult<Span<'_>, (ParseEvents<'_>, Stat
         }),
         map(
             peek(alt((
-                recognize(alt((separator, char_str::one_of(")}")))),
+                // A record that consists only of attributes can be the key of a slot.
+                recognize(alt((separator, char_str::one_of(")}:")))),
                 char_str::line_ending,
             ))),
             |_| {
